@@ -236,6 +236,14 @@ def run(ctx: common.Ctx):
                               dict(replay, difference=diff[0]))
         elif kind == "partition":
             n_pm += 1
+            tp = [x for x in res["canon_problems"] if "input-type-vs-program" in x]
+            if tp:
+                n_pm_dis += 1
+                bad_programs.append({"program": prog})
+                ctx.violation("model-partition-differs:part-input-type",
+                              f"a part input of the real partition of {prog} is not typed like the program node it "
+                              f"stands for: {tp[0]}", dict(replay, difference=tp[0]))
+                continue
             if res["canon_problems"]:
                 n_pm_dis += 1
                 ctx.broken.append(f"harness:cannot-canonicalise-real-names:{res['canon_problems'][0]}:{prog}")
